@@ -77,7 +77,8 @@ def build_algorithms(spec, shared=None):
     else:
         plan = hp.StaticPlanning("static", delay, seed=spec.get("static_seed", 0),
                                  assign=spec.get("static_plan"),
-                                 sort_by_est=not spec.get("static_unsorted", False))
+                                 sort_by_est=not spec.get("static_unsorted", False),
+                                 slack=spec.get("static_slack", 0))
     s = spec["scheduling"]
     k = s["kind"]
     if shared is not None and shared.get("sched") is not None:
